@@ -90,6 +90,7 @@ func refStatsSigningBytes(a server.AllDeviceStats) []byte {
 type slotKey struct{ id, ts uint32 }
 
 type sim struct {
+	nestedArchive int32 // set while a second archive download runs inside a gap of the first
 	forceNegZero bool // the next impact round hands out -0 for every device
 	res          *core.Result
 	w            *srv.World
